@@ -168,6 +168,7 @@ func (j *c14Job) RunUnit(i int, c *run.Ctx) {
 	m := modeFloat
 	for di := 0; di < j.ds.n(); di++ {
 		for _, pc := range cases {
+			c.Tick()
 			doc := j.ds.docs[m][di]
 			j.env.ResetLogs()
 			out := spec.Eval(pc.p, doc, j.env.Model)
